@@ -109,6 +109,13 @@ TEXT = {
         'note': NOTE_COMMON,
         'technique': 'Lean 4 proof: per-slot obligations + exec_mirror/exec_xy_blind (all instructions, all states) + decide over decode tables; differential correspondence incl. real-vs-real DD/FD mirror pairs',
     },
+    'C09': {
+        'text': 'Machine-checked about Gen.Step (regenerated, via C01): one Step on any of the 16 block instructions performs EXACTLY one element — explicit post-state incl. memory, pointers, counter, flags, ordered bus log; the repeating forms keep PC on the instruction iff not finished. '
+                'By induction over the count, for EVERY BC (0 = 65536) / B (0 = 256), HL, DE (overlap, wrap), memory and device: LDIR/LDDR copy exactly BC bytes one per repetition in order (closed form ldMem; DE=HL+1 fills), BC=0, P/V=H=N=0, S/Z/C kept, PC after the instruction; '
+                'CPIR/CPDR stop at the FIRST match or at BC=0, Z=found, P/V=(BC!=0); OTIR/OTDR write exactly B bytes from (HL±i) to port C in order; INIR/INDR make exactly B reads of port C stored at (HL±i); B=0, Z set.',
+        'note': NOTE_COMMON + ' Closed forms assume the destination does not overwrite the two instruction bytes.',
+        'technique': 'Lean 4 proof: explicit one-Step lemmas (simp through C01) + induction over the repeat count; differential correspondence running block operations to completion (up to 65536 Steps)',
+    },
     'C16': {
         'text': 'Machine-checked symbolic bit-vector theorems over the definitions regenerated from flag.go/z80.go: GetFlag = any-named-bit, '
                 'SetFlag = F|m, ResetFlag = F&~m for all masks and all F, frame (A and all other fields unchanged), constants = Z80 bit positions, '
